@@ -143,8 +143,12 @@ def dds_hash(x: Any) -> PyHash:
             # a dataclass.
             check_len(names)
             vals = [_dds_hash(getattr(elt, n), n) for n in names]
+            # The name of the class is part of the value: two data classes with the same fields
+            # are different objects.
             return _dds_hash(
-                [_hash_dict_tuple(name, h) for (name, h) in zip(names, vals)], None
+                [_hash_dict_tuple("__dataclass__", type(elt).__name__)]
+                + [_hash_dict_tuple(name, h) for (name, h) in zip(names, vals)],
+                None,
             )
         if isinstance(
             elt,
